@@ -308,6 +308,10 @@ def build(spec, m, objs=None, domain_factory=None):
         if k == "call":
             return getattr(bt(t[1]), t[2])(*[bt(a) if isinstance(a, list) else a for a in t[3]])
         if k == "lit":
+            if isinstance(t[1], list) and spec.get("oneshot_literals"):
+                # the collection is written into the query as a one-shot iterable (a generator): the answers are those
+                # of the same items in a list, however often the evaluation comes back to it
+                return (item for item in list(t[1]))
             return t[1]
         if k == "fn":
             return getattr(m, t[1])(**{kw: bt(a) for kw, a in t[2].items()})
